@@ -29,17 +29,19 @@ Kinds == {"assign", "annassign", "walrus", "tuple", "starred", "for", "with", "e
           "nonlocalread",                  \* the same, and the enclosing function reads x after calling the nested one: nothing is unused
           "dupimport", "aliasclash",       \* two bindings of one identifier in one statement: import x, x.sub / from os import x as y, y
           "fromalias", "fromalias_us",     \* from os import path as NAME / from os import _exit as NAME (the shape rule looks at NAME)
-          "fortuple", "withtuple", "comptuple", "nestedtuple"}   \* the identifier inside a tuple target
+          "fortuple", "withtuple", "comptuple", "nestedtuple",   \* the identifier inside a tuple target
+          "compnested",                    \* the variable of a comprehension written inside another comprehension
+          "fromalias_ml"}                  \* from os import (path <newline> as NAME): the alias on a later line than the imported name
 Scopes == {"module", "class", "function", "method", "nested", "lambda", "inmethod", "lambdainmethod",   \* inmethod: a def nested in a method
            "classinfunction"}                                                                          \* the body of a class written inside a function: class level
 Shapes == {"x", "_x", "__x__", "x_"}          \* x_: a trailing underscore is an ordinary name
 ParamKinds == {"param", "kwonly", "vararg", "kwarg", "posonly"}
-ImportKinds == {"import", "fromimport", "dotted", "aliased", "dupimport", "aliasclash", "fromalias", "fromalias_us"}
+ImportKinds == {"import", "fromimport", "dotted", "aliased", "dupimport", "aliasclash", "fromalias", "fromalias_us", "fromalias_ml"}
 FunctionLike == {"function", "method", "nested", "lambda", "inmethod", "lambdainmethod"}
 
 Legal(k, s, sh) ==
   /\ (k \in ParamKinds => s \in {"function", "method", "nested", "lambda", "inmethod", "lambdainmethod"})      \* parameters belong to the function itself
-  /\ (s \in {"lambda", "lambdainmethod"} => k \in ParamKinds \cup {"walrus", "comp"})                  \* a lambda body is one expression
+  /\ (s \in {"lambda", "lambdainmethod"} => k \in ParamKinds \cup {"walrus", "comp", "compnested"})                  \* a lambda body is one expression
   /\ (k \in ParamKinds \cup {"globaldecl", "nonlocaldecl", "nonlocalread"} => s # "classinfunction")
   /\ (k = "future" => s = "module" /\ sh = "x")                                   \* from __future__ import only at module level
   /\ (k = "star" => s = "module" /\ sh = "x")
